@@ -13,6 +13,7 @@
 package main
 
 import (
+	"bytes"
 	"flag"
 	"fmt"
 	"os"
@@ -131,8 +132,9 @@ func scenario(w *vt.Writer, t *conc.Target, ops []*op, G, K int, sc int) {
 	// its own (message || goroutine || sequence number): two streams / ciphertexts / tokens that get mixed up
 	// are then distinguishable, and the alone inverse must give back exactly THAT call's input.
 	type planned struct {
-		o *op
-		x input
+		o   *op
+		x   input
+		was input // what the caller passed, copied before the phase
 	}
 	plans := make([][]planned, G)
 	for g := 0; g < G; g++ {
@@ -151,7 +153,21 @@ func scenario(w *vt.Writer, t *conc.Target, ops []*op, G, K int, sc int) {
 				x = input{u, u}
 				w.Emit(run1(o, x.in, x.msg).ev("alone")) // the same call, alone
 			}
-			plans[g] = append(plans[g], planned{o, x})
+			plans[g] = append(plans[g], planned{o, x, input{append([]byte{}, x.in...), append([]byte{}, x.msg...)}})
+		}
+	}
+	// the inputs are shared between goroutines (the same slices): the library may only read them
+	type snap struct {
+		name   string
+		b, was []byte
+	}
+	var snaps []snap
+	for j, m := range msgs {
+		snaps = append(snaps, snap{fmt.Sprintf("message %d", j), m, append([]byte{}, m...)})
+	}
+	for _, o := range ops {
+		for j, x := range inputs[o.name] {
+			snaps = append(snaps, snap{fmt.Sprintf("input %d of %s", j, o.name), x.in, append([]byte{}, x.in...)})
 		}
 	}
 	res := make([][]result, G)
@@ -164,7 +180,9 @@ func scenario(w *vt.Writer, t *conc.Target, ops []*op, G, K int, sc int) {
 			buf := make([]result, 0, K)
 			<-start
 			for _, c := range plans[g] {
-				buf = append(buf, run1(c.o, c.x.in, c.x.msg))
+				r := run1(c.o, c.x.in, c.x.msg)
+				r.in, r.msg = c.was.in, c.was.msg
+				buf = append(buf, r)
 			}
 			res[g] = buf
 		}(g)
@@ -177,6 +195,28 @@ func scenario(w *vt.Writer, t *conc.Target, ops []*op, G, K int, sc int) {
 			e["g"], e["i"] = g, i
 			w.Emit(e)
 		}
+	}
+	for k, sn := range snaps {
+		if k < len(msgs) || !bytes.Equal(sn.b, sn.was) {
+			w.Emit(vt.Ev{"ev": "intact", "buf": sn.name, "before": vt.Hex(sn.was), "after": vt.Hex(sn.b)})
+			copy(sn.b, sn.was) // restored for the phases that follow
+		}
+	}
+	// ---- shared-buffer phase: ALL goroutines pass the SAME message buffer (one shorter, one longer than a cipher
+	// block) and shared associated-data buffers to the producing operations, at the same time. Reading caller
+	// memory concurrently is legal, so a result that differs from Alone, a race report on these buffers or a
+	// buffer that is not intact afterwards is the library's doing.
+	sres, intact := sharedPhase(w, ops[:nClass], G, K, sc)
+	for g := range sres {
+		for i, r := range sres[g] {
+			e := r.ev("conc")
+			e["g"], e["i"] = g, K+i
+			w.Emit(e)
+		}
+		res[g] = append(res[g], sres[g]...)
+	}
+	for _, e := range intact {
+		w.Emit(e)
 	}
 	// ---- alone inverses of the randomized results
 	for g := range res {
@@ -351,4 +391,91 @@ func hasKeyManagers(h *keyset.Handle) bool {
 		}
 	}
 	return true
+}
+
+// sharedPhase: see scenario. Returns the per-goroutine results (appended to the concurrent results, so that the
+// randomized ones get their alone inverse) and the "intact" events of the shared buffers.
+func sharedPhase(w *vt.Writer, class []*op, G, K, sc int) ([][]result, []vt.Ev) {
+	rg := vt.Rng(int64(sc)*271 + 9)
+	bufs := [][]byte{vt.Bytes(rg, 7), vt.Bytes(rg, 40), vt.Bytes(rg, 16)} // exact capacity: nothing may be appended in place either
+	ads := [][]byte{[]byte("shared ad 0"), []byte("shared associated data 1 (longer than a block)"), {}}
+	pristine := func(bs [][]byte) [][]byte {
+		out := make([][]byte, len(bs))
+		for i, b := range bs {
+			out[i] = append([]byte{}, b...)
+		}
+		return out
+	}
+	bufs0, ads0 := pristine(bufs), pristine(ads)
+	// the producing operations, one variant per shared AD buffer where the operation takes one
+	var variants [][]*op // variants[k] = what a goroutine with AD index k calls
+	for k := range ads {
+		var vs []*op
+		for _, o := range class {
+			if o.from != "" {
+				continue
+			}
+			o, k := o, k
+			if o.ad != nil {
+				v := &op{name: fmt.Sprintf("%s[shared buffers, ad %d]", o.name, k), rand: o.rand, invName: o.invName, meta: o.meta,
+					call: func(in, _ []byte) ([]byte, error) { return o.ad(in, ads[k]) }}
+				if o.invAD != nil {
+					v.inv = func(out, _ []byte) ([]byte, error) { return o.invAD(out, ads[k]) }
+				}
+				vs = append(vs, v)
+			} else {
+				vs = append(vs, &op{name: o.name + "[shared buffers]", rand: o.rand, invName: o.invName, inv: o.inv, meta: o.meta, call: o.call})
+			}
+		}
+		variants = append(variants, vs)
+	}
+	if len(variants[0]) == 0 {
+		return make([][]result, G), nil
+	}
+	for k := range variants { // alone
+		for _, v := range variants[k] {
+			if k > 0 && !strings.Contains(v.name, ", ad ") {
+				continue // the same call for every AD index
+			}
+			for _, b := range bufs {
+				w.Emit(run1(v, b, b).ev("alone"))
+			}
+		}
+	}
+	rounds := K / (2 * len(bufs) * len(variants[0]))
+	if rounds < 1 {
+		rounds = 1
+	}
+	res := make([][]result, G)
+	start := make(chan struct{})
+	var wg sync.WaitGroup
+	for g := 0; g < G; g++ {
+		wg.Add(1)
+		go func(g int) {
+			defer wg.Done()
+			vs := variants[g%len(variants)]
+			buf := make([]result, 0, rounds*len(bufs)*len(vs))
+			<-start
+			for r := 0; r < rounds; r++ {
+				for _, v := range vs {
+					for bi, b := range bufs {
+						r := run1(v, b, b)
+						r.in, r.msg = bufs0[bi], bufs0[bi] // what the caller passed (the shared buffer must still hold it: "intact")
+						buf = append(buf, r)
+					}
+				}
+			}
+			res[g] = buf
+		}(g)
+	}
+	close(start)
+	wg.Wait()
+	var intact []vt.Ev
+	for i := range bufs {
+		intact = append(intact, vt.Ev{"ev": "intact", "buf": fmt.Sprintf("message buffer %d", i), "before": vt.Hex(bufs0[i]), "after": vt.Hex(bufs[i])})
+	}
+	for i := range ads {
+		intact = append(intact, vt.Ev{"ev": "intact", "buf": fmt.Sprintf("associated data buffer %d", i), "before": vt.Hex(ads0[i]), "after": vt.Hex(ads[i])})
+	}
+	return res, intact
 }
